@@ -116,7 +116,10 @@ def run(chk):
                 sig = f'C06 internal {r[1]} in {r[2]}'
                 if r[2] in ('assembled', 'gen_code_for_node'):
                     # generic sites: the message tells the defects apart
-                    sig += ' (' + r[3].strip('"').replace('<', '').replace('>', '').split(' dimrc')[0][:60] + ')'
+                    import re as _re
+                    msg = r[3].strip('"').replace('<', '').replace('>', '')
+                    mm = _re.search(r'node: (\w+)', msg)
+                    sig += ' (' + ('Cannot generate code for node: ' + mm.group(1) if mm else msg[:60]) + ')'
                 if sig not in best or len(label or src) < len(best[sig][0]):
                     best[sig] = (label or src, r, src, o, g)
             elif r[0] == 'nopos':
